@@ -2,13 +2,56 @@ package main
 
 import (
 	"bufio"
+	"context"
+	"encoding/hex"
 	"errors"
 	"fmt"
 	"strconv"
 
+	"github.com/plgd-dev/go-coap/v3/message"
+	"github.com/plgd-dev/go-coap/v3/message/codes"
+	"github.com/plgd-dev/go-coap/v3/message/pool"
 	"github.com/plgd-dev/go-coap/v3/net/blockwise"
+	tcpcoder "github.com/plgd-dev/go-coap/v3/tcp/coder"
+	udpcoder "github.com/plgd-dev/go-coap/v3/udp/coder"
 	"verifharness/internal/lp"
 )
+
+// c19Through sends a message that carries option `id` with the value it has in `src` through the named coder ("udp", "tcp";
+// "raw" = no coder) and returns what the receiver reads with GetOptionUint32 — the way net/blockwise reads a block option.
+func c19Through(src *pool.Message, id message.OptionID, coder string) (uint32, string) {
+	dst := src
+	if coder != "raw" {
+		src.SetCode(codes.Content)
+		src.SetToken(message.Token{0xa1, 0xb2})
+		src.SetBody(nil)
+		var data []byte
+		var err error
+		dst = pool.NewMessage(context.Background())
+		switch coder {
+		case "udp":
+			src.SetType(message.Confirmable)
+			src.SetMessageID(0x1234)
+			if data, err = src.MarshalWithEncoder(udpcoder.DefaultCoder); err == nil {
+				_, err = dst.UnmarshalWithDecoder(udpcoder.DefaultCoder, data)
+			}
+		case "tcp":
+			if data, err = src.MarshalWithEncoder(tcpcoder.DefaultCoder); err == nil {
+				_, err = dst.UnmarshalWithDecoder(tcpcoder.DefaultCoder, data)
+			}
+		default:
+			return 0, "bad-op"
+		}
+		if err != nil {
+			return 0, "codec-error"
+		}
+	}
+	v, err := dst.GetOptionUint32(id)
+	if err != nil {
+		return 0, "option-lost"
+	}
+	return v, ""
+}
 
 func c19ErrKind(err error) (string, uint64) {
 	switch {
@@ -69,6 +112,64 @@ func main() {
 				return
 			}
 			fmt.Fprintf(w, "ok %d\n", v)
+		case f[0] == "wenc" && len(f) == 6:
+			// wenc <23|27> <udp|tcp|raw> <szx> <num> <more>: EncodeBlockOption -> SetOptionUint32 -> (coder) -> GetOptionUint32 -> DecodeBlockOption
+			id, e0 := strconv.ParseUint(f[1], 10, 16)
+			s, e1 := strconv.ParseUint(f[3], 10, 8)
+			n, e2 := strconv.ParseInt(f[4], 10, 64)
+			m, e3 := strconv.ParseUint(f[5], 10, 8)
+			if e0 != nil || e1 != nil || e2 != nil || e3 != nil {
+				fmt.Fprintln(w, "bad-op")
+				return
+			}
+			v, e := blockwise.EncodeBlockOption(blockwise.SZX(s), n, m != 0)
+			if e != nil {
+				k, _ := c19ErrKind(e)
+				fmt.Fprintf(w, "err %s\n", k)
+				return
+			}
+			src := pool.NewMessage(context.Background())
+			src.SetOptionUint32(message.OptionID(id), v)
+			raw, _ := src.GetOptionBytes(message.OptionID(id))
+			onWire := lp.Hex(raw)
+			got, bad := c19Through(src, message.OptionID(id), f[2])
+			if bad != "" {
+				fmt.Fprintln(w, bad)
+				return
+			}
+			szx, num, more, e := blockwise.DecodeBlockOption(got)
+			if e != nil {
+				k, _ := c19ErrKind(e)
+				fmt.Fprintf(w, "sent %s err %s\n", onWire, k)
+				return
+			}
+			fmt.Fprintf(w, "ok %s %d %d %d\n", onWire, szx, num, b2u(more))
+		case f[0] == "wdec" && len(f) == 4:
+			// wdec <23|27> <udp|tcp|raw> <hex>: a peer's option value (any bytes) -> (coder) -> GetOptionUint32 -> DecodeBlockOption
+			id, e0 := strconv.ParseUint(f[1], 10, 16)
+			var bs []byte
+			var e1 error
+			if f[3] != "-" {
+				bs, e1 = hex.DecodeString(f[3])
+			}
+			if e0 != nil || e1 != nil {
+				fmt.Fprintln(w, "bad-op")
+				return
+			}
+			src := pool.NewMessage(context.Background())
+			src.SetOptionBytes(message.OptionID(id), bs)
+			got, bad := c19Through(src, message.OptionID(id), f[2])
+			if bad != "" {
+				fmt.Fprintln(w, bad)
+				return
+			}
+			szx, num, more, e := blockwise.DecodeBlockOption(got)
+			if e != nil {
+				k, _ := c19ErrKind(e)
+				fmt.Fprintf(w, "err %s\n", k)
+				return
+			}
+			fmt.Fprintf(w, "ok %d %d %d\n", szx, num, b2u(more))
 		case f[0] == "size" && len(f) == 2:
 			s, _ := strconv.ParseUint(f[1], 10, 8)
 			fmt.Fprintf(w, "%d\n", blockwise.SZX(s).Size())
